@@ -12,7 +12,7 @@ for d in sorted(os.listdir("/tmp")):
     if not m:
         continue
     prop = m.group(1)
-    for X in ("A", "B", "C", "D", "E", "F", "G", "H"):
+    for X in ("A", "B", "C", "D", "E", "F", "G", "H", "I"):
         cf = os.path.join("/tmp", d, X + ".confirm.json")
         if not os.path.exists(cf):
             continue
